@@ -56,7 +56,10 @@ def _now():
 
 def _sleep(seconds=0):
     if ENV.sched is not None and ENV.sched.me() is not None:
-        ENV.now += max(0.0, float(seconds))
+        if ENV.sleep_hook is not None:
+            ENV.sleep_hook(seconds)
+        else:
+            ENV.now += max(0.0, float(seconds))
         ENV.sched.point('sleep')
         return
     if ENV.sleep_hook is not None:
